@@ -24,7 +24,7 @@ def run(ctx):
     vlib.tlc_ok(ctx, r, "MC_AnkoWalker")
     srcs = grammarcorpus.sources() + rawcorpus.cases()
     # programs whose trees are very deep or very long (chains of operators, calls, members, parentheses, blocks; long lists and statement lists): size decides nothing
-    for n in (() if os.environ.get("C17_NODEEP") else ((600,) if ctx.quick() else (600, 1500))):
+    for n in (() if os.environ.get("C17_NODEEP") else ((600,) if ctx.quick() else (600, 1100))):
         srcs += [{"id": "deep|plus-%d" % n, "src": "x = a" + " + a" * n}, {"id": "deep|calls-%d" % n, "src": "b" + ".add(1)" * n}, {"id": "deep|parens-%d" % n, "src": "z = " + "(" * (2 * n) + "a" + ")" * (2 * n)},
                  {"id": "deep|ifs-%d" % n, "src": "if a {\n" * n + "f()\n" + "}\n" * n}]
         if not ctx.quick():
